@@ -415,6 +415,21 @@ def frame_lists(lo, hi):
     return st.lists(st.sampled_from(FRAME_NAMES), min_size=lo, max_size=hi, unique=True)
 
 
+# built once: constructing strategies inside a composite on every draw dominated the run time (profiled)
+S_TF = tfs()
+S_POINT = points()
+S_POSE_ROT = rots(POSE_ROT_FORMS)
+S_FRAMES_2 = frame_lists(2, 2)
+S_FRAMES_2_5 = frame_lists(2, 5)
+S_SPELLING = st.sampled_from(SPELLINGS)
+S_POS_FORM = st.sampled_from(POS_FORMS)
+S_KEY_FORM = st.sampled_from(KEY_FORMS)
+S_CALL = st.sampled_from(CALLS)
+S_FRAME = st.sampled_from(FRAME_NAMES)
+S_HOW = st.sampled_from(["dot", "transform", "transform_kw", "right"])
+S_BOTH = st.sampled_from([False, False, False, False, True])
+
+
 # ------------------------------------------------------------------------------------------------
 # sub-check 1: one transform, one pose — construction, pose transform, inverse, round trips
 # ------------------------------------------------------------------------------------------------
@@ -423,18 +438,18 @@ def frame_lists(lo, hi):
 def strat_pose(tier):
     return st.fixed_dictionaries(
         {
-            "A": tfs(),
-            "frames": frame_lists(2, 2),
-            "fs": st.sampled_from(SPELLINGS),
-            "tpform": st.sampled_from(POS_FORMS),
-            "p": points(),
-            "pform": st.sampled_from(POS_FORMS),
-            "pq": rots(POSE_ROT_FORMS),
+            "A": S_TF,
+            "frames": S_FRAMES_2,
+            "fs": S_SPELLING,
+            "tpform": S_POS_FORM,
+            "p": S_POINT,
+            "pform": S_POS_FORM,
+            "pq": S_POSE_ROT,
         }
     )
 
 
-@CHECK.given("pose", strat_pose, quick=300, thorough=64000)
+@CHECK.given("pose", strat_pose, quick=600, thorough=96000)
 def pose(ctx, d):
     np, Quaternion, FrameID, HomogeneousMatrix, TransformDict, TransformKey = _lib()
     src, dst = d["frames"]
@@ -524,22 +539,22 @@ def pose(ctx, d):
 def strat_chain(tier):
     @st.composite
     def s(draw):
-        frames = draw(frame_lists(2, 5))
+        frames = draw(S_FRAMES_2_5)
         k = len(frames) - 1
         return {
             "frames": frames,
-            "tfs": [draw(tfs()) for _ in range(k)],
-            "fs": [draw(st.sampled_from(SPELLINGS)) for _ in range(k)],
-            "how": draw(st.sampled_from(["dot", "transform", "transform_kw", "right"])),
-            "p": draw(points()),
-            "pform": draw(st.sampled_from(POS_FORMS)),
-            "pq": draw(rots(POSE_ROT_FORMS)),
+            "tfs": [draw(S_TF) for _ in range(k)],
+            "fs": [draw(S_SPELLING) for _ in range(k)],
+            "how": draw(S_HOW),
+            "p": draw(S_POINT),
+            "pform": draw(S_POS_FORM),
+            "pq": draw(S_POSE_ROT),
         }
 
     return s()
 
 
-@CHECK.given("chain", strat_chain, quick=300, thorough=64000)
+@CHECK.given("chain", strat_chain, quick=600, thorough=96000)
 def chain(ctx, d):
     np, Quaternion, FrameID, HomogeneousMatrix, TransformDict, TransformKey = _lib()
     frames = d["frames"]
@@ -649,57 +664,49 @@ def chain(ctx, d):
 # ------------------------------------------------------------------------------------------------
 
 
+def _pairs(n):
+    return [(i, j) for i in range(n) for j in range(i + 1, n)]
+
+
+S_BOOL = st.booleans()
+S_IDX = {n: st.integers(0, n - 1) for n in range(1, 7)}
+S_NQ = st.integers(1, 6)
+S_EDGE_SETS = {n: st.lists(st.sampled_from(_pairs(n)), min_size=1, max_size=min(4, len(_pairs(n))), unique=True) for n in range(2, 6)}
+S_CTOR = st.sampled_from(["list", "tuple", "setitem"])
+S_CTOR_1 = st.sampled_from(["list", "tuple", "setitem", "single", "single"])
+
+
 def strat_registry(tier):
     @st.composite
     def s(draw):
-        frames = draw(frame_lists(2, 5))
+        frames = draw(S_FRAMES_2_5)
         n = len(frames)
-        pairs = [(i, j) for i in range(n) for j in range(i + 1, n)]
-        chosen = draw(st.lists(st.sampled_from(pairs), min_size=1, max_size=min(4, len(pairs)), unique=True))
         edges = []
-        for i, j in chosen:
-            if draw(st.booleans()):
+        for i, j in draw(S_EDGE_SETS[n]):
+            if draw(S_BOOL):
                 i, j = j, i
-            edges.append(
-                {
-                    "i": i,
-                    "j": j,
-                    "tf": draw(tfs()),
-                    "fs": draw(st.sampled_from(SPELLINGS)),
-                    "both": draw(st.sampled_from([False, False, False, False, True])),
-                }
-            )
-        ctors = ["list", "tuple", "setitem"] + (["single"] if len(edges) == 1 and not edges[0]["both"] else [])
-        idx = st.integers(0, n - 1)
+            edges.append({"i": i, "j": j, "tf": draw(S_TF), "fs": draw(S_SPELLING), "both": draw(S_BOTH)})
+        single_ok = len(edges) == 1 and not edges[0]["both"]
         # queries: a free (s, d) pair, or — to keep direct / inverse lookups frequent — an edge in either direction
-        q_free = st.tuples(idx, idx)
-        q_edge = st.tuples(st.sampled_from([(e["i"], e["j"]) for e in edges]), st.booleans()).map(lambda t: t[0] if t[1] else (t[0][1], t[0][0]))
-        queries = draw(
-            st.lists(
-                st.fixed_dictionaries(
-                    {
-                        "sd": st.one_of(q_free, q_edge),
-                        "ss": st.sampled_from(SPELLINGS),
-                        "ds": st.sampled_from(SPELLINGS),
-                        "kform": st.sampled_from(KEY_FORMS),
-                        "call": st.sampled_from(CALLS),
-                    }
-                ),
-                min_size=1,
-                max_size=6,
-            )
-        )
+        queries = []
+        for _ in range(draw(S_NQ)):
+            if draw(S_BOOL):
+                sd = [draw(S_IDX[n]), draw(S_IDX[n])]
+            else:
+                e = edges[draw(S_IDX[len(edges)])]
+                sd = [e["i"], e["j"]] if draw(S_BOOL) else [e["j"], e["i"]]
+            queries.append({"sd": sd, "ss": draw(S_SPELLING), "ds": draw(S_SPELLING), "kform": draw(S_KEY_FORM), "call": draw(S_CALL)})
         return {
             "frames": frames,
             "edges": edges,
-            "ctor": draw(st.sampled_from(ctors)),
-            "setkey": draw(st.sampled_from(KEY_FORMS)),
-            "queries": [dict(q, sd=list(q["sd"])) for q in queries],
-            "p": draw(points()),
-            "pform": draw(st.sampled_from(POS_FORMS)),
-            "pq": draw(rots(POSE_ROT_FORMS)),
-            "m": draw(tfs()),
-            "mz": draw(st.sampled_from(FRAME_NAMES)),
+            "ctor": draw(S_CTOR_1 if single_ok else S_CTOR),
+            "setkey": draw(S_KEY_FORM),
+            "queries": queries,
+            "p": draw(S_POINT),
+            "pform": draw(S_POS_FORM),
+            "pq": draw(S_POSE_ROT),
+            "m": draw(S_TF),
+            "mz": draw(S_FRAME),
         }
 
     return s()
@@ -791,7 +798,7 @@ def _results_close(ctx, call, a, b, tol):
     return len(fa) == len(fb) and la == lb and all(abs(x - y) <= tol for x, y in zip(fa, fb))
 
 
-@CHECK.given("registry", strat_registry, quick=300, thorough=64000)
+@CHECK.given("registry", strat_registry, quick=600, thorough=96000)
 def registry(ctx, d):
     np, Quaternion, FrameID, HomogeneousMatrix, TransformDict, TransformKey = _lib()
     frames = d["frames"]
@@ -955,7 +962,8 @@ def key_spellings(ctx, d):
     np, Quaternion, FrameID, HomogeneousMatrix, TransformDict, TransformKey = _lib()
     a, b, how, kform = d["src"], d["dst"], d["spelling"], d["kform"]
     members = [m.name for m in FrameID]
-    ctx.require(sorted(members) == sorted(FRAME_NAMES), "frame-list-out-of-date", lambda: f"FrameID members changed: {members}")
+    if sorted(members) != sorted(FRAME_NAMES):  # our table is stale: a harness error, not a verdict
+        raise RuntimeError(f"FRAME_NAMES out of date; FrameID members are {members}")
     ctx.mark_nontrivial()
     ctx.cls("spelling:" + how)
     ctx.cls("key:" + kform)
